@@ -9,7 +9,9 @@ unrolled completely, so the check is exhaustive for those sizes.  handle_packet 
 from pyvc.api import harness, len_, ite, eq, band, bor, bnot, implies, be, cat, const
 
 SE = "tlexport.session.Session"
-MAXP, MAXB = 3, 14
+import os as _os
+# quick: 3 segments / 14 bytes (2 records); thorough: 3 segments / 19 bytes (3 records)
+MAXP, MAXB = (3, 19) if _os.environ.get("PYVC_TIER") == "thorough" else (3, 14)
 
 
 def spec_frames(c, D):
